@@ -479,6 +479,20 @@ class VM:
                  "f32::INFINITY": z3.fpPlusInfinity(F32), "f32::NEG_INFINITY": z3.fpMinusInfinity(F32)}
         if t in known:
             return known[t]
+        mk_ = re.match(r'^core::(f32|f64|u8|u16|u32|u64|usize|i8|i16|i32|i64|isize|i128|u128)::<impl \1>::(MAX|MIN|EPSILON|INFINITY|NEG_INFINITY|NAN)$', t)
+        if mk_:
+            ty, what = mk_.group(1), mk_.group(2)
+            if ty in ('f32', 'f64'):
+                sort = F32 if ty == 'f32' else F64
+                big = 3.4028234663852886e38 if ty == 'f32' else 1.7976931348623157e308
+                eps = 1.1920928955078125e-07 if ty == 'f32' else 2.220446049250313e-16
+                return {'MAX': z3.FPVal(big, sort), 'MIN': z3.FPVal(-big, sort), 'EPSILON': z3.FPVal(eps, sort),
+                        'INFINITY': z3.fpPlusInfinity(sort), 'NEG_INFINITY': z3.fpMinusInfinity(sort), 'NAN': z3.fpNaN(sort)}[what]
+            bits, signed = INT_TYPES[ty]
+            if what == 'MAX':
+                return I(z3.BitVecVal(2 ** (bits - 1) - 1 if signed else 2 ** bits - 1, bits), signed)
+            if what == 'MIN':
+                return I(z3.BitVecVal(-2 ** (bits - 1) if signed else 0, bits), signed)
         ts = subst(t, env)
         segs = split_path(ts)
         last = segs[-1][0]
